@@ -419,6 +419,16 @@ def cases(rng, tier):
             if ar and rng.random() < 0.3:
                 ar[rng.randrange(len(ar))] = 3 - ar[0] if rng.random() < 0.7 else 3
             yield ("validate", {"what": "basis", "arities": ar, "ncoeffs": len(ar) + rng.choice([0, 0, 0, 1, -1]) if ar else rng.choice([0, 1])})
+    # deterministic: a gate on three / four qubits handed to find_cuts with a device narrower than, as wide as and wider than the circuit
+    # (the refusal must not depend on whether anything would have to be cut)
+    for gate, k in (("ccx", 3), ("cswap", 3), ("ccz", 3), ("c3x", 4)):
+        for nq in (k, k + 1):
+            for width in (max(1, nq - 1), nq, nq + 2):
+                for pos in (0, 1):
+                    ctx = [{"name": "cx", "qubits": [0, 1]}, {"name": "h", "qubits": [nq - 1]}]
+                    instrs = ctx[:pos] + [{"name": gate, "qubits": list(range(k)) if pos else list(range(k))[::-1]}] + ctx[pos:]
+                    yield ("find", {"nq": nq, "instrs": instrs, "seed": 4, "max_gamma": 1024.0, "max_backjumps": 10000, "gate_lo": True, "wire_lo": True,
+                                    "width": width, "exact": True, "always_oracle": True})
     for _ in range(N):
         p = cutfind.gen_case(rng, tier, exact=True, restricted=False)
         cls = rng.choice(["width", "gamma", "gamma", "backjumps", "ccx", "valid"])
